@@ -231,6 +231,10 @@ func (f *compressFilter) decompress(src []byte) ([]byte, error) {
 	if !ok {
 		return nil, errInvalidCpsAlgorithm
 	}
+	// the header ends with CRLF, otherwise it's just a value which looks like one.
+	if !bytes.Equal(src[cpsHdrLen-len(CRLF):cpsHdrLen], CRLF) {
+		return nil, errMissingCpsHdr
+	}
 
 	// decode with specified algorithm
 	br := newReader()
